@@ -128,6 +128,12 @@ def run(out: common.Outcome):
                 out.report({"kind": "collectonly-installs-dsession"}, {"pre": pre, "post": o}, {"input": i})
             if o[3] and pre[5] and not pre[6]:
                 out.report({"kind": "pdb-with-distribution-accepted"}, {"pre": pre, "post": o}, {"input": i})
+            # -nK means K local workers (capped by --maxprocesses), whatever --tx says (seeded C13-6)
+            np, mp = pre[0], pre[1]
+            if isinstance(np, list) and np and isinstance(np[0], int) and np[0] >= 1 and (mp == [] or (isinstance(mp, list) and mp and mp[0] >= 1)):
+                want = ["popen"] * (min(np[0], mp[0]) if mp else np[0])
+                if o[1][4] != want:
+                    out.report({"kind": "n-k-does-not-mean-k-local-workers"}, {"pre": pre, "post": o, "expected_tx": want}, {"input": i})
         elif o[0] == "err":
             # the only documented rejection: --pdb (or -f with --pdb) together with a run that WOULD be distributed.
             # No execution environment (no -n / -n0, no --tx) means no distribution, whatever --dist says.
@@ -140,6 +146,9 @@ def run(out: common.Outcome):
                 no_env = np[0] <= 0                               # -n0 (and a negative count) starts no worker
             if pdb and no_env and not loop:
                 out.report({"kind": "pdb-rejected-although-nothing-is-distributed"}, {"pre": pre, "post": o}, {"input": i})
+            elif pdb and co and not loop:
+                # --collect-only never starts workers, so there is no distribution for --pdb to clash with (seeded C13-5)
+                out.report({"kind": "pdb-rejected-although-collect-only-never-distributes"}, {"pre": pre, "post": o}, {"input": i})
             if not pdb:
                 out.report({"kind": "rejected-without-pdb"}, {"pre": pre, "post": o}, {"input": i})
 
